@@ -54,6 +54,7 @@ class Extractor:
         self._loop_ord = {}
         self._memo = {}
         self.cur_fn = None
+        self.notes = []
 
     # ------------------------------------------------------------------ public
 
@@ -209,6 +210,14 @@ class Extractor:
             if path == "nom::sequence::tuple":
                 return ("seq", self.tuple_items(args[0], env))
             return ("seq", [self.parser(a, env) for a in args])
+        if path == "nom::combinator::verify" and len(args) == 2:
+            p0 = self.parser(args[0], env)
+            excl = self.verify_excluded_literals(args[1])
+            if excl:
+                return ("minus", p0, ("alt", [("lit", x) for x in sorted(excl)]))
+            self.notes.append("%s: predicate of verify(..) is a constraint on the parsed value; the regular reading keeps the "
+                              "language of the inner parser" % self.cur_fn)
+            return p0
         if path in TRANSPARENT:
             # value(v, p): parser is the 2nd argument; others: the 1st
             p = self.parser(args[1] if path.endswith("::value") else args[0], env)
@@ -267,6 +276,43 @@ class Extractor:
             vals = [self.value(a, env) for a in args]
             return self.apply_factory(callee, vals)
         raise Unknown("%s: unknown combinator %s" % (self.cur_fn, path))
+
+    def verify_excluded_literals(self, clo):
+        """`|v| !matches!(v, QName::Unprefixed("a" | "b"))` -> {"a", "b"}: the predicate excludes exactly these complete
+        matches (an unprefixed QName is the whole matched text).  Anything else -> None."""
+        if clo.get("k") != "Closure" or len(clo["params"]) != 1 or clo["params"][0].get("p") != "Bind":
+            return None
+        lid = clo["params"][0]["lid"]
+        body = clo["body"]
+        while body.get("k") == "Block" and not body.get("stmts") and "expr" in body:
+            body = body["expr"]
+        if body.get("k") != "Unary" or body.get("op") != "!":
+            return None
+        m = body["a"]
+        if m.get("k") != "Match" or len(m["arms"]) != 2:
+            return None
+        sc = m["scrut"]
+        while sc.get("k") in ("Unary", "AddrOf"):
+            sc = sc["a"]
+        if not (sc.get("k") == "Path" and sc.get("res") == "Local" and sc["lid"] == lid):
+            return None
+        first, second = m["arms"]
+        if not (first["body"].get("k") == "Lit" and first["body"].get("v") is True and
+                second["pat"].get("p") == "Wild" and second["body"].get("v") is False):
+            return None
+        pat = first["pat"]
+        while pat.get("p") in ("Ref", "Deref"):
+            pat = pat["sub"]
+        if pat.get("p") != "TupleStruct" or not str(pat.get("path", "")).endswith("QName::Unprefixed") or len(pat["pats"]) != 1:
+            return None
+        inner = pat["pats"][0]
+        lits = []
+        for q in ([inner] if inner.get("p") != "Or" else inner["pats"]):
+            if q.get("p") == "Expr" and q["e"].get("k") == "Lit" and q["e"].get("t") == "str":
+                lits.append(q["e"]["v"])
+            else:
+                return None
+        return set(lits)
 
     def tuple_items(self, e, env):
         if e.get("k") != "Tup":
